@@ -484,6 +484,19 @@ pub fn execute(h: &History, crash_at: u64, variant: Option<(usize, bool)>, down_
             } else {
                 ex.track();
                 fin = ex.abstract_state();
+                // a tracker says "the penalty has been handed to the node": whatever was interrupted, the node must at least
+                // have seen that transaction once (it may have lost it since; that is what re-broadcasts are for)
+                if crash.is_some() {
+                    let st = ex.node.lock();
+                    for (uuid, (_, penalty, _)) in &fin.trackers {
+                        if let Ok(tx) = bitcoin::consensus::deserialize::<Transaction>(penalty) {
+                            if !st.ever_known.contains(&tx.compute_txid()) {
+                                ex.violations.push(viol("responded-without-penalty-after-crash", format!("after the crash and restart the tower holds a tracker for appointment {} (reported as dispute_responded) whose penalty {} the node has never been given", &hex::encode(&uuid[..4]), tx.compute_txid())));
+                                break;
+                            }
+                        }
+                    }
+                }
             }
         }
     }
